@@ -65,6 +65,45 @@ REPROS = {
         "ref = U @ r0; ref /= np.linalg.norm(ref)\n"
         "err = np.abs(got - ref).max(); print('ThermalProp exact, EX space, from a^dagger thermal(GS): max |rho - U rho0/norm| =', err)\n"
         "sys.exit(1 if err > 1e-9 else 0)\n",
+    "evolve-exact-imaginary-dt":
+        "import renormalizer\nimport numpy as np, sys\nfrom renormalizer.model import HolsteinModel, Mol, Phonon\nfrom renormalizer.mps import Mps, Mpo\n"
+        "from renormalizer.utils import Quantity\n"
+        "np.random.seed(1)\n"
+        "model = HolsteinModel([Mol(Quantity(0.5), [Phonon.simple_phonon(Quantity(1.25), Quantity(0.5), 3)])] * 2, Quantity(0.0))\n"
+        "h = Mpo(model, offset=Quantity(0.7)); s = Mps.random(model, 0, 4); tau = 0.4\n"
+        "psi = np.asarray(s.todense()) * s.coeff\n"
+        "try:\n"
+        "    out = s.evolve_exact(h, -1j * tau, 'GS')\n"
+        "except AssertionError as e:\n"
+        "    print('Mps.evolve_exact(h_mpo, -1j*tau, GS) raises AssertionError (x = -1j*dt is complex-typed with zero imaginary part)'); sys.exit(1)\n"
+        "diag = np.exp(-tau * 1.25 * np.array([n1 + n2 for e1 in range(2) for n1 in range(3) for e2 in range(2) for n2 in range(3)]))\n"
+        "err = np.linalg.norm(np.asarray(out.todense()) * out.coeff - diag * psi); print('error', err); sys.exit(1 if err > 1e-10 else 0)\n",
+    "exact-propagator-dense":
+        "import renormalizer\nimport numpy as np, scipy.linalg as sla, sys\nfrom renormalizer.model import HolsteinModel, Mol, Phonon\nfrom renormalizer.mps import Mpo\n"
+        "from renormalizer.utils import Quantity\n"
+        "phs = [Phonon.simple_phonon(Quantity(1.0), Quantity(d), 3) for d in (0.9, -0.5)]   # same frequency and levels, different displacement\n"
+        "model = HolsteinModel([Mol(Quantity(0.5), phs)], np.zeros((1, 1)))\n"
+        "b = np.diag(np.sqrt(np.arange(1, 3)), 1); x = -0.7; bad = []\n"
+        "for space in ('GS', 'EX'):\n"
+        "    got = np.asarray(Mpo.exact_propagator(model, x, space, 0.3).todense())\n"
+        "    loc = [sla.expm(x * (ph.omega[0] * b.T @ b + (ph.term10 * (b.T + b) if space == 'EX' else 0))) for ph in phs]\n"
+        "    ref = np.kron(np.eye(2), np.kron(loc[0], loc[1])) * np.exp(0.3 * x)\n"
+        "    e = np.abs(got - ref).max(); print(space, 'max deviation from the dense exponential', e)\n"
+        "    if e > 1e-10: bad.append(space)\n"
+        "sys.exit(1 if bad else 0)\n",
+    "imag-input-reuse": C9.PRE +
+        "s = Mps.random(m, 1, 8).canonicalise().canonicalise(); psi = dense(s); bad = []\n"
+        "for meth in (EvolveMethod.tdvp_ps2, EvolveMethod.tdvp_ps, EvolveMethod.prop_and_compress):\n"
+        "    a = s.copy(); a.evolve_config = EvolveConfig(meth); a.compress_config = CompressConfig(CompressCriteria.fixed, max_bonddim=64)\n"
+        "    for tau in (0.02, 0.03):\n"
+        "        ref = sla.expm(-tau*H) @ psi; ref /= np.linalg.norm(ref)\n"
+        "        e = np.linalg.norm(dense(a.evolve(mpo, -1j*tau)) - ref)\n"
+        "        if e > 1e-6: bad.append((meth.name, tau, e))\n"
+        "    if np.linalg.norm(dense(a) - psi) > 1e-12: bad.append((meth.name, 'input changed', np.linalg.norm(dense(a) - psi)))\n"
+        "    b = s.copy(); b.evolve_config = EvolveConfig(meth, adaptive=True, guess_dt=-0.05j, adaptive_rtol=1e-5); b.compress_config = a.compress_config\n"
+        "    ref = sla.expm(-0.4*H) @ psi; ref /= np.linalg.norm(ref); e = np.linalg.norm(dense(b.evolve(mpo, -0.4j)) - ref)\n"
+        "    if e > 1e-2: bad.append((meth.name, 'adaptive', e))\n"
+        "print(bad); sys.exit(1 if bad else 0)\n",
     "evolve-exact-phase-bookkeeping":
         "import renormalizer\nimport numpy as np, sys\nfrom renormalizer.model import HolsteinModel, Mol, Phonon\nfrom renormalizer.mps import Mps, Mpo, MpDm\n"
         "from renormalizer.utils import Quantity\n"
@@ -91,6 +130,8 @@ REPROS = {
 def classify(k, rec):
     if k.startswith(("thermal-other-model", "exception/thermal-other-model")):
         return "thermalprop-h-mpo-model-ignored"
+    if k.startswith(("imag-reuse", "imag-adaptive", "thermal-adaptive", "exception/imag-reuse", "exception/imag-adaptive", "exception/thermal-adaptive")):
+        return "imag-input-reuse"
     if k.startswith(("order/cmf2", "order/cmf_trapz", "exception/cmf_trapz", "exception/cmf2")):
         return "cmf-imag-midpoint-realtime"
     return "oracle/" + "/".join(k.split("/")[:2])
@@ -222,7 +263,8 @@ def run(ctx):
         ties += res["tie"]
         n_or += res["n_oracle"]
         for b in res["bad"]:
-            key = {"evolve_exact bookkeeping": "evolve-exact-phase-bookkeeping", "ThermalProp exact": "thermalprop-exact-propagation"}.get(
+            key = {"evolve_exact bookkeeping": "evolve-exact-phase-bookkeeping", "ThermalProp exact": "thermalprop-exact-propagation",
+                   "evolve_exact imaginary dt": "evolve-exact-imaginary-dt", "exact_propagator dense": "exact-propagator-dense"}.get(
                 b["what"], "oracle/" + b["what"].replace(" ", "-"))
             classes.setdefault(key, []).append(b)
     ints = []
@@ -298,6 +340,9 @@ def run(ctx):
     for key, recs in sorted(classes.items()):
         repro = REPROS.get(key)
         what = {"cmf-imag-midpoint-realtime": "oracle clause `every scheme that supports imaginary time yields exp(-tau H) psi / norm within its own order`",
+                "imag-input-reuse": "oracle: imaginary-time evolution from a re-used input object / with adaptive stepping (the input must not be overwritten)",
+                "evolve-exact-imaginary-dt": "oracle: Mps/MpDm.evolve_exact with an imaginary evolve_dt vs exp(-tau H_loc)",
+                "exact-propagator-dense": "theorem C10_exact_prop_dense (tie) / dense oracle of Mpo.exact_propagator GS and EX",
                 "thermalprop-h-mpo-model-ignored": "oracle clause `thermal propagation gives the canonical averages of the Hamiltonian it was given` (ThermalProp.evolve_prop)",
                 "thermalprop-exact-propagation": "theorem C10_evolve_exact_source (order of application) and the oracle for ThermalProp(exact=True): normalised U rho on the physical index",
                 "evolve-exact-phase-bookkeeping": "theorems C10_evolve_exact_source / C10_evolve_exact_total and the bookkeeping oracle"}.get(key, "dense oracle: " + key)
